@@ -57,7 +57,7 @@ SymNames  == {"S1", "S2", "S3", "S4", "S5", "S6", "S7", "S8"}
 ZoneNames == {"GLOBAL", "z1", "z2", "z3", "z4", "z5", "z6", "z7", "z8", "z9", "z10", "z11", "z12"}
 
 \* scope class of a name: global, file or local ("k.." are constants)
-Cls(n) == CASE n \in {"g1", "g2", "g3", "kg1", "kg2", "pd1", "pc1"} -> "g"
+Cls(n) == CASE n \in {"g1", "g2", "g3", "kg1", "kg2", "pd1", "pc1", "rg"} -> "g"
             [] n \in {"f1", "f2", "kf1"} -> "f"
             [] n \in {"l1", "l2"} -> "l"
             [] OTHER -> "g"
@@ -326,7 +326,8 @@ SortByAddrLib(objs) == SortSeq(objs, LAMBDA x, y : x.addr < y.addr)
 (* Pass 2 (C02, C04, C06): bytes and the adjacent overlap check.           *)
 
 \* value of an operand: a label / constant reference or a literal
-OperandVal(o, tab) == IF o.n = "" THEN o.a ELSE Lookup(tab, o.n, o.file, o.region)
+\* "rg" is spelled like a register: a register name is never a label reference, even when the ISA definition predefines data of that name
+OperandVal(o, tab) == IF o.n = "" THEN o.a ELSE IF o.n = "rg" THEN Undef ELSE Lookup(tab, o.n, o.file, o.region)
 
 Fits(v, w) == -(Pow2(w - 1)) <= v /\ v <= Pow2(w) - 1
 
